@@ -47,7 +47,8 @@ def gen_feat(rng):
                       score=rng.choice([".", ".", "5"]), strand=rng.choice(["+", "+", "-"]), frame=".", attrs=attrs)
 
 
-FORCES = [[], ["source"], ["strand"], ["source", "strand"], ["score", "source", "strand"], ["seqid"], ["featuretype"], ["frame"]]
+FORCES = [[], ["source"], ["strand"], ["source", "strand"], ["score", "source", "strand"], ["seqid"], ["featuretype"], ["frame"],
+          ["strand", "source"], ["source", "score"], ["strand", "score", "source"], ["source", "featuretype"], ["frame", "strand"]]
 
 
 def gen_cases(rng, tier):
